@@ -12,6 +12,7 @@ def st(variant, monitor, quick, thorough, **kw):
 PLANS = {
     "C03": {"stages": [
         st("chk", "hist", 100000, 2000000, death_prop="C03", floor={"process_calls": 50000}),
+        st("chk", "d13", 16, 16, death_prop="C03", max_shards=4),
         st("asan", "hist", 30000, 400000, death_prop="C03", reseed=True),
         st("miri", "hist", 96, 960, profile="tiny", death_prop="C03", reseed=True, timeout={"quick": 900, "thorough": 7200}),
         st("miri-sse", "hist", 32, 320, profile="tiny", death_prop="C03", reseed=True, tiers=["thorough"], timeout={"thorough": 7200}),
@@ -80,11 +81,11 @@ META = {
 
 PLANS.update({
     "C10": {"stages": [st("rel", "reset", 40000, 600000, death_prop="C03", floor={"compared_steps": 50000})]},
-    "C11": {"stages": [st("rel", "chan", 30000, 400000, death_prop="C03", floor={"compared_steps": 50000})]},
-    "C12": {"stages": [st("rel", "set", 60000, 1000000, death_prop="C03", floor={"set_ratio_calls": 100000, "exact_bound_calls": 10000})]},
+    "C11": {"stages": [st("rel", "chan", 80000, 1000000, death_prop="C03", floor={"compared_steps": 50000})]},
+    "C12": {"stages": [st("rel", "set", 200000, 3000000, death_prop="C03", floor={"set_ratio_calls": 100000, "exact_bound_calls": 10000})]},
     "C13": {"stages": [st("chk", "bad", 40000, 600000, death_prop="C13", floor={"malformed_calls": 50000})]},
-    "C16": {"stages": [st("rel", "wrap", 40000, 600000, death_prop="C03", floor={"compared_steps": 50000})]},
-    "C17": {"stages": [st("rel", "prec", 24000, 300000, death_prop="C03", floor={"compared_steps": 50000})]},
+    "C16": {"stages": [st("rel", "wrap", 100000, 1500000, death_prop="C03", floor={"compared_steps": 50000})]},
+    "C17": {"stages": [st("rel", "prec", 60000, 800000, death_prop="C03", floor={"compared_steps": 50000})]},
 })
 RULES.update({
     "C10": "case = (configuration, dirtying history incl. pending ramps / reduced chunk size / masks / malformed calls, reset, random continuation); "
@@ -126,10 +127,10 @@ META.update({
 })
 
 PLANS.update({
-    "C05": {"stages": [st("rel", "chunk", 4000, 80000, death_prop="C03", floor={"frames_compared": 1000000})]},
+    "C05": {"stages": [st("rel", "chunk", 16000, 300000, death_prop="C03", floor={"frames_compared": 1000000})]},
     "C06": {"stages": [st("chk", "warp", 40000, 800000, death_prop="C03", floor={"ramped_chunks": 1000, "spacings_checked": 1000000})]},
-    "C07": {"stages": [st("rel", "acct", 3000, 30000, death_prop="C03", floor={"process_calls": 1000000})]},
-    "C08": {"stages": [st("rel", "poly", 8000, 150000, death_prop="C03", floor={"frames_checked": 1000000})]},
+    "C07": {"stages": [st("rel", "acct", 12000, 120000, death_prop="C03", floor={"process_calls": 1000000})]},
+    "C08": {"stages": [st("rel", "poly", 40000, 600000, death_prop="C03", floor={"frames_checked": 1000000})]},
 })
 RULES.update({
     "C05": "case = one noise stream (2e3..4e4 input frames, constant ratio, optionally set once before the first call) run through two twins: two chunk sizes, FixedIn vs FixedOut, "
@@ -159,7 +160,7 @@ META.update({
 })
 
 PLANS.update({
-    "C14": {"stages": [st("rel", "delay", 6000, 120000, death_prop="C03", floor={"pulses_measured": 3000})]},
+    "C14": {"stages": [st("rel", "delay", 30000, 500000, death_prop="C03", floor={"pulses_measured": 3000})]},
     "C15": {"stages": [
         st("rel", "simd", 8000, 200000, death_prop="C15", floor={"kernel_evaluations": 500000}),
         st("asan", "simd", 3000, 60000, death_prop="C15", reseed=True),
@@ -167,8 +168,8 @@ PLANS.update({
         st("miri-sse", "simd", 32, 480, profile="tiny", death_prop="C15", reseed=True, tiers=["thorough"], timeout={"thorough": 7200}),
     ]},
     "C18": {"stages": [
-        st("rel", "thr", 160, 6000, death_prop="C18", floor={"calls_executed_concurrently": 5000, "migrations_between_threads": 500}, max_shards=4),
-        st("tsan", "thr", 48, 1200, death_prop="C18", reseed=True, max_shards=4, env={"TSAN_OPTIONS": "halt_on_error=1 abort_on_error=0 exitcode=66"}),
+        st("rel", "thr", 1600, 40000, death_prop="C18", floor={"calls_executed_concurrently": 5000, "migrations_between_threads": 500}, max_shards=4),
+        st("tsan", "thr", 400, 8000, death_prop="C18", reseed=True, max_shards=4, env={"TSAN_OPTIONS": "halt_on_error=1 abort_on_error=0 exitcode=66"}),
         st("miri", "thr", 16, 128, profile="tiny", death_prop="C18", reseed=True, miri_seed_per_shard=True, timeout={"quick": 900, "thorough": 7200}),
     ]},
 })
@@ -195,11 +196,11 @@ META.update({
 PLANS.update({
     "C01": {"stages": [
         st("rel", "ir", 384, 1518, death_prop="C03", floor={"impulse_responses_extracted": 300}),
-        st("rel", "band", 1600, 32000, death_prop="C03", floor={"c01_tone_runs": 800}),
+        st("rel", "band", 12000, 200000, death_prop="C03", floor={"c01_tone_runs": 4000}),
     ]},
     "C02": {"stages": [
         st("rel", "ir", 384, 1518, death_prop="C03", floor={"impulse_responses_extracted": 300}),
-        st("rel", "band", 1600, 32000, death_prop="C03", floor={"c02_stopband_runs": 500}),
+        st("rel", "band", 12000, 200000, death_prop="C03", floor={"c02_stopband_runs": 2000}),
     ]},
 })
 RULES.update({
